@@ -39,8 +39,16 @@ func Home() string {
 	return "/verif"
 }
 
+// OutDir is where evidence and replay files are written: VERIF_OUT when set (mutant self-tests), else Home().
+func OutDir() string {
+	if h := os.Getenv("VERIF_OUT"); h != "" {
+		return h
+	}
+	return Home()
+}
+
 func WriteReplay(rf *ReplayFile) (string, error) {
-	dir := filepath.Join(Home(), "replays")
+	dir := filepath.Join(OutDir(), "replays")
 	if err := os.MkdirAll(dir, 0o755); err != nil {
 		return "", err
 	}
